@@ -102,3 +102,213 @@ package gonum
 //@ valid flagUL(uplo) && n >= 0 && lda >= max(1, n) && (n == 0 || ge(a, n, n, lda))
 //@ panics iff !valid, before-writes
 //@ writes a[i*lda+j] for i in 0..n, j in 0..n if (uplo == blas.Upper && j >= i) || (uplo == blas.Lower && j <= i)
+
+// ---- Householder reflectors ------------------------------------------------------
+
+//@ func Implementation.Iladlc props: C02 C07(safety)
+//@ valid m >= 0 && n >= 0 && lda >= max(1, n) && (m == 0 || n == 0 || ge(a, m, n, lda))
+//@ panics iff !valid, before-writes
+//@ writes nothing
+//@ ensures -1 <= result && result < n
+//@ loop 1: invariant -1 <= highest && highest < n
+//@ loop 2: invariant -1 <= highest && highest < n
+
+//@ func Implementation.Iladlr props: C02 C07(safety)
+//@ valid m >= 0 && n >= 0 && lda >= max(1, n) && (m == 0 || n == 0 || ge(a, m, n, lda))
+//@ panics iff !valid, before-writes
+//@ writes nothing
+//@ ensures -1 <= result && result < m
+
+//@ func Implementation.Dlarfg props: C02 C07(safety)
+//@ valid n >= 0 && incX > 0 && (n <= 1 || len(x) >= 1+(n-2)*incX)
+//@ panics iff !valid, before-writes
+//@ writes x[k*incX] for k in 0..n-1
+
+// work: n cells for side == Left, m cells for side == Right (reference LAPACK;
+// the doc comment of Dlarf states the two the other way round).
+
+//@ func Implementation.Dlarf props: C02 C07(safety)
+//@ let lenV = ite(side == blas.Left, m, n)
+//@ let lenW = ite(side == blas.Left, n, m)
+//@ valid flagS(side) && m >= 0 && n >= 0 && incv != 0 && ldc >= max(1, n) &&
+//@       (m == 0 || n == 0 || (len(v) >= 1+(lenV-1)*abs(incv) && ge(c, m, n, ldc) && len(work) >= lenW))
+//@ panics iff !valid, before-writes
+//@ writes c[i*ldc+j] for i in 0..m, j in 0..n ; work[k] for k in 0..lenW
+
+//@ spec flagDirect(d int) bool = d == lapack.Forward || d == lapack.Backward
+//@ spec flagStoreV(s int) bool = s == lapack.ColumnWise || s == lapack.RowWise
+
+//@ func Implementation.Dlarft props: C02 C07(safety)
+//@ let mv = ite(store == lapack.RowWise, k, n)
+//@ let nv = ite(store == lapack.RowWise, n, k)
+//@ valid flagDirect(direct) && flagStoreV(store) && n >= 0 && k >= 1 && ldv >= max(1, nv) && len(tau) >= k && ldt >= max(1, k) &&
+//@       (n == 0 || (ge(v, mv, nv, ldv) && ge(t, k, k, ldt)))
+//@ requires n == 0 || n >= k
+//@ panics iff !valid, before-writes
+//@ writes t[i*ldt+j] for i in 0..k, j in 0..k if (direct == lapack.Forward && j >= i) || (direct == lapack.Backward && j <= i)
+
+// k <= (m for side == Left, n for side == Right) is the reference constraint on
+// the number of reflectors; like the reference, the routine does not check it.
+
+//@ spec flagTS(t int) bool = t == blas.NoTrans || t == blas.Trans
+
+//@ func Implementation.Dlarfb props: C02 C07(safety)
+//@ let nv = ite(side == blas.Right, n, m)
+//@ let nw = ite(side == blas.Right, m, n)
+//@ let rv = ite(store == lapack.ColumnWise, nv, k)
+//@ let cv = ite(store == lapack.ColumnWise, k, nv)
+//@ valid flagS(side) && flagTS(trans) && flagDirect(direct) && flagStoreV(store) && m >= 0 && n >= 0 && k >= 0 &&
+//@       ldv >= max(1, cv) && ldt >= max(1, k) && ldc >= max(1, n) && ldwork >= max(1, k) &&
+//@       (m == 0 || n == 0 || k == 0 || (ge(v, rv, cv, ldv) && ge(t, k, k, ldt) && ge(c, m, n, ldc) && ge(work, nw, k, ldwork)))
+//@ requires k <= nv
+//@ panics iff !valid, before-writes
+//@ writes c[i*ldc+j] for i in 0..m, j in 0..n ; work[i*ldwork+j] for i in 0..nw, j in 0..k
+
+// ---- QR / LQ ---------------------------------------------------------------------
+
+//@ func Implementation.Dgeqr2 props: C02 C07(safety)
+//@ valid m >= 0 && n >= 0 && lda >= max(1, n) && len(work) >= n &&
+//@       (min(m, n) == 0 || (ge(a, m, n, lda) && len(tau) == min(m, n)))
+//@ panics iff !valid, before-writes
+//@ writes a[i*lda+j] for i in 0..m, j in 0..n ; tau[k] for k in 0..min(m, n) ; work[j] for j in 0..n
+
+//@ func Implementation.Dgelq2 props: C02 C07(safety)
+//@ valid m >= 0 && n >= 0 && lda >= max(1, n) &&
+//@       (min(m, n) == 0 || (ge(a, m, n, lda) && len(tau) >= min(m, n) && len(work) >= m))
+//@ panics iff !valid, before-writes
+//@ writes a[i*lda+j] for i in 0..m, j in 0..n ; tau[k] for k in 0..min(m, n) ; work[j] for j in 0..m
+
+// tau is listed as a whole (for a valid non-query call of Dgeqrf it is exactly
+// tau[0:min(m,n)]): with the family tau[k] for k in 0..min(m,n) the frame check of
+// the Dlarft call (T is stored in work with the computed stride nb) needs 5-12 s.
+
+//@ func Implementation.Dgeqrf props: C02 C07(safety)
+//@ valid m >= 0 && n >= 0 && lda >= max(1, n) && (lwork >= max(1, n) || lwork == -1) && len(work) >= max(1, lwork) &&
+//@       (min(m, n) == 0 || lwork == -1 || (ge(a, m, n, lda) && len(tau) == min(m, n)))
+//@ panics iff !valid, before-writes
+//@ writes work[*] ; tau[*] ; a[i*lda+j] for i in 0..m, j in 0..n if lwork != -1
+
+//@ func Implementation.Dgelqf props: C02 C07(safety)
+//@ valid m >= 0 && n >= 0 && lda >= max(1, n) && (lwork >= max(1, m) || lwork == -1) && len(work) >= max(1, lwork) &&
+//@       (min(m, n) == 0 || lwork == -1 || (ge(a, m, n, lda) && len(tau) >= min(m, n)))
+//@ panics iff !valid, before-writes
+//@ writes work[*] ; tau[*] ; a[i*lda+j] for i in 0..m, j in 0..n if lwork != -1
+
+// Dorg2r clears every element of work (not only the first n).
+
+//@ func Implementation.Dorg2r props: C02 C07(safety)
+//@ valid m >= 0 && 0 <= n && n <= m && 0 <= k && k <= n && lda >= max(1, n) &&
+//@       (n == 0 || (ge(a, m, n, lda) && len(tau) == k && len(work) >= n))
+//@ panics iff !valid, before-writes
+//@ writes a[i*lda+j] for i in 0..m, j in 0..n ; work[*]
+
+//@ func Implementation.Dorgl2 props: C02 C07(safety)
+//@ valid m >= 0 && n >= m && 0 <= k && k <= m && lda >= max(1, n) &&
+//@       (m == 0 || (ge(a, m, n, lda) && len(tau) >= k && len(work) >= m))
+//@ panics iff !valid, before-writes
+//@ writes a[i*lda+j] for i in 0..m, j in 0..n ; work[j] for j in 0..m
+
+// The diagonal of the reflector matrix a is overwritten with 1 during the call and restored.
+
+//@ func Implementation.Dorm2r props: C02 C07(safety)
+//@ let nq = ite(side == blas.Left, m, n)
+//@ let nw = ite(side == blas.Left, n, m)
+//@ valid flagS(side) && flagTS(trans) && m >= 0 && n >= 0 && 0 <= k && k <= nq && lda >= max(1, k) && ldc >= max(1, n) &&
+//@       (m == 0 || n == 0 || k == 0 || (ge(a, nq, k, lda) && ge(c, m, n, ldc) && len(tau) == k && len(work) >= nw))
+//@ panics iff !valid, before-writes
+//@ writes a[i*lda+i] for i in 0..k ; c[i*ldc+j] for i in 0..m, j in 0..n ; work[j] for j in 0..nw
+
+//@ func Implementation.Dorml2 props: C02 C07(safety)
+//@ let nq = ite(side == blas.Left, m, n)
+//@ let nw = ite(side == blas.Left, n, m)
+//@ valid flagS(side) && flagTS(trans) && m >= 0 && n >= 0 && 0 <= k && k <= nq && lda >= max(1, nq) &&
+//@       (m == 0 || n == 0 || k == 0 || (ldc >= n && ge(a, k, nq, lda) && len(tau) >= k && ge(c, m, n, ldc) && len(work) >= nw))
+//@ panics iff !valid, before-writes
+//@ writes a[i*lda+i] for i in 0..k ; c[i*ldc+j] for i in 0..m, j in 0..n ; work[j] for j in 0..nw
+
+// Dorgqr deliberately accepts any lda on a workspace query (Dgesvd passes a placeholder).
+
+//@ func Implementation.Dorgqr props: C02 C07(safety)
+//@ valid m >= 0 && 0 <= n && n <= m && 0 <= k && k <= n && (lda >= max(1, n) || lwork == -1) &&
+//@       (lwork >= max(1, n) || lwork == -1) && len(work) >= max(1, lwork) &&
+//@       (n == 0 || lwork == -1 || (ge(a, m, n, lda) && len(tau) == k))
+//@ panics iff !valid, before-writes
+//@ writes work[*] ; a[i*lda+j] for i in 0..m, j in 0..n if lwork != -1
+
+//@ func Implementation.Dorglq props: C02 C07(safety)
+//@ valid m >= 0 && n >= m && 0 <= k && k <= m && lda >= max(1, n) &&
+//@       (lwork >= max(1, m) || lwork == -1) && len(work) >= max(1, lwork) &&
+//@       (m == 0 || lwork == -1 || (ge(a, m, n, lda) && len(tau) >= k))
+//@ panics iff !valid, before-writes
+//@ writes work[*] ; a[i*lda+j] for i in 0..m, j in 0..n if lwork != -1
+
+// lwork >= max(1, n) for side == Left and max(1, m) for side == Right (reference
+// LAPACK; parts of the doc comments of Dormqr and Dormlq state it the other way round).
+
+//@ func Implementation.Dormqr props: C02 C07(safety)
+//@ let nq = ite(side == blas.Left, m, n)
+//@ let nw = ite(side == blas.Left, n, m)
+//@ valid flagS(side) && flagTS(trans) && m >= 0 && n >= 0 && 0 <= k && k <= nq && lda >= max(1, k) && ldc >= max(1, n) &&
+//@       (lwork >= max(1, nw) || lwork == -1) && len(work) >= max(1, lwork) &&
+//@       (m == 0 || n == 0 || k == 0 || lwork == -1 || (ge(a, nq, k, lda) && len(tau) == k && ge(c, m, n, ldc)))
+//@ panics iff !valid, before-writes
+//@ writes work[*] ; a[i*lda+i] for i in 0..k if lwork != -1 ; c[i*ldc+j] for i in 0..m, j in 0..n if lwork != -1
+
+//@ func Implementation.Dormlq props: C02 C07(safety)
+//@ let nq = ite(side == blas.Left, m, n)
+//@ let nw = ite(side == blas.Left, n, m)
+//@ valid flagS(side) && flagTS(trans) && m >= 0 && n >= 0 && 0 <= k && k <= nq && lda >= max(1, nq) &&
+//@       (lwork >= max(1, nw) || lwork == -1) && len(work) >= max(1, lwork) &&
+//@       (m == 0 || n == 0 || k == 0 || lwork == -1 || (ldc >= n && ge(a, k, nq, lda) && len(tau) >= k && ge(c, m, n, ldc)))
+//@ panics iff !valid, before-writes
+//@ writes work[*] ; a[i*lda+i] for i in 0..k if lwork != -1 ; c[i*ldc+j] for i in 0..m, j in 0..n if lwork != -1
+
+// ---- auxiliary matrix routines -----------------------------------------------------
+
+//@ spec flagNorm(t int) bool = t == lapack.MaxAbs || t == lapack.MaxColumnSum || t == lapack.MaxRowSum || t == lapack.Frobenius
+
+//@ func Implementation.Dlapy2 props: C02 C07(safety)
+//@ writes nothing
+
+//@ func Implementation.Dlassq props: C02 C07(safety)
+//@ valid n >= 0 && incx > 0 && (n == 0 || len(x) >= 1+(n-1)*incx)
+//@ panics iff !valid, before-writes
+//@ writes nothing
+
+// Any uplo other than Upper and Lower selects the whole matrix.
+
+//@ func Implementation.Dlaset props: C02 C07(safety)
+//@ valid m >= 0 && n >= 0 && lda >= max(1, n) && (min(m, n) == 0 || ge(a, m, n, lda))
+//@ panics iff !valid, before-writes
+//@ writes a[i*lda+j] for i in 0..m, j in 0..n if (uplo != blas.Upper || j >= i) && (uplo != blas.Lower || j <= i)
+
+//@ func Implementation.Dlacpy props: C02 C07(safety)
+//@ valid (uplo == blas.Upper || uplo == blas.Lower || uplo == blas.All) && m >= 0 && n >= 0 &&
+//@       lda >= max(1, n) && ldb >= max(1, n) && (m == 0 || n == 0 || (ge(a, m, n, lda) && ge(b, m, n, ldb)))
+//@ panics iff !valid, before-writes
+//@ writes b[i*ldb+j] for i in 0..m, j in 0..n if (uplo != blas.Upper || j >= i) && (uplo != blas.Lower || j <= i)
+
+//@ func Implementation.Dlascl props: C02 C07(safety)
+//@ valid (kind == lapack.General || kind == lapack.UpperTri || kind == lapack.LowerTri) && lda >= max(1, n) &&
+//@       cfrom != 0 && !isNaN(cfrom) && !isNaN(cto) && m >= 0 && n >= 0 && (m == 0 || n == 0 || ge(a, m, n, lda))
+//@ panics iff !valid, before-writes
+//@ writes a[i*lda+j] for i in 0..m, j in 0..n if (kind != lapack.UpperTri || j >= i) && (kind != lapack.LowerTri || j <= i)
+
+//@ func Implementation.Dlange props: C02 C07(safety)
+//@ valid flagNorm(norm) && m >= 0 && n >= 0 && lda >= max(1, n) &&
+//@       (m == 0 || n == 0 || (ge(a, m, n, lda) && (norm != lapack.MaxColumnSum || len(work) >= n)))
+//@ panics iff !valid, before-writes
+//@ writes work[j] for j in 0..n if norm == lapack.MaxColumnSum
+
+//@ func Implementation.Dlansy props: C02 C07(safety)
+//@ let useWork = norm == lapack.MaxColumnSum || norm == lapack.MaxRowSum
+//@ valid flagNorm(norm) && flagUL(uplo) && n >= 0 && lda >= max(1, n) &&
+//@       (n == 0 || (ge(a, n, n, lda) && (!useWork || len(work) >= n)))
+//@ panics iff !valid, before-writes
+//@ writes work[j] for j in 0..n if useWork
+
+//@ func Implementation.Dlantr props: C02 C07(safety)
+//@ valid flagNorm(norm) && flagUL(uplo) && flagD(diag) && m >= 0 && n >= 0 && lda >= max(1, n) &&
+//@       (min(m, n) == 0 || (ge(a, m, n, lda) && (norm != lapack.MaxColumnSum || len(work) >= n)))
+//@ panics iff !valid, before-writes
+//@ writes work[j] for j in 0..n if norm == lapack.MaxColumnSum
